@@ -14,12 +14,12 @@ inductive TrieRun (H : Bytes → Bytes) (U : Ref → Prop) (Vok : Nat → Prop) 
   | nil (t : Node) : TrieRun H U Vok t [] t
   | own (v : Nat) (t t1 t' : Node) (es1 es : List Event) : Vok v → RoundEvents v t es1 t1 → (∀ r ∈ eventRefs es1, U r) →
       TrieRun H U Vok t1 es t' → TrieRun H U Vok t (es1 ++ es) t'
-  | merge (t t2 t' : Node) (c0 : Trie) (esC es : List Event) :
+  | merge (t t2 t' : Node) (c0 : Trie) (esC es : List Event) (cs : List (Change Ref)) :
       c0.cc.changes = [] ∧ c0.cc.deletes = [] → TrieRun H U Vok t esC t2 →
-      orderStuck H (c0.applyEvents H esC).cc.getChanges = false →
+      cs.Perm (c0.applyEvents H esC).cc.getChanges →   -- Go hands mergeChanges the changes in map order
+      orderStuck H cs = false →
       TrieRun H U Vok t2 es t' →
-      TrieRun H U Vok t (mergeEvents (orderChanges H (c0.applyEvents H esC).cc.getChanges)
-        (c0.applyEvents H esC).cc.getDeletes ++ es) t'
+      TrieRun H U Vok t (mergeEvents (orderChanges H cs) (c0.applyEvents H esC).cc.getDeletes ++ es) t'
 
 theorem liveRun_sub_nodes {κ N : Type} (k : N → κ) (P : N → Prop) (cs : List (Call N)) :
     ∀ (L : κ → Prop), (∀ c ∈ cs, CallNodes P c) → ∀ x, liveRun k L cs x → L x ∨ ∃ n, P n ∧ k n = x := by
@@ -83,7 +83,7 @@ theorem trieRun_discipline (H : Bytes → Bytes) (U : Ref → Prop) (hU : KeyInj
       rcases (eventRefs_append _ _ r).mp hr' with h1 | h1
       · exact hE r h1
       · exact hE2 r h1
-  | merge t t2 t' c0 esC es hfreshC _ hstuck _ ihC ih =>
+  | merge t t2 t' c0 esC es cs hfreshC _ hpermcs hstuck _ ihC ih =>
     intro hw hUt LK hcov hLKU
     -- the child's own run, started from the keys of the tree it was opened on
     obtain ⟨hdC, hcC, hw2, hEC, hUt2⟩ := ihC hw hUt (fun x => x ∈ (refs t []).map (Ref.key H))
@@ -93,10 +93,10 @@ theorem trieRun_discipline (H : Bytes → Bytes) (U : Ref → Prop) (hU : KeyInj
     have provT : Prov (Ref.key H) (fun _ => True) (c0.applyEvents H esC).cc :=
       ⟨fun e he => ⟨(prov.changes e he).1, trivial, fun _ _ => trivial⟩, fun e he => ⟨(prov.deletes e he).1, trivial⟩⟩
     have hgood := orderChanges_good H _ hstuck
-    have hperm := orderChanges_perm H (c0.applyEvents H esC).cc.getChanges
+    have hperm := (orderChanges_perm H cs).trans hpermcs
     have hmerge := merge_calls_ok (Ref.key H) _ _ _ inv inv2 provT _ hperm hgood LK
       (by intro x hx; obtain ⟨r, hr', rfl⟩ := List.mem_map.mp hx; exact hcov r hr')
-    have hne : ∀ c ∈ orderChanges H (c0.applyEvents H esC).cc.getChanges, ∀ o, c.old = some o → o.key H ≠ c.new.key H := by
+    have hne : ∀ c ∈ orderChanges H cs, ∀ o, c.old = some o → o.key H ≠ c.new.key H := by
       intro c hc o ho
       have hc' : c ∈ (c0.applyEvents H esC).cc.getChanges := hperm.mem_iff.mp hc
       obtain ⟨e, he, rfl⟩ := List.mem_map.mp hc'
@@ -106,7 +106,7 @@ theorem trieRun_discipline (H : Bytes → Bytes) (U : Ref → Prop) (hU : KeyInj
       exact inv2.old_ne _ _ o hg ho
     have hcalls := callsOf_mergeEvents H _ (c0.applyEvents H esC).cc.getDeletes hne
     -- the nodes the replay hands to the parent's collector come from the child's events
-    have hnodes : ∀ c ∈ mergeCalls (orderChanges H (c0.applyEvents H esC).cc.getChanges) (c0.applyEvents H esC).cc.getDeletes,
+    have hnodes : ∀ c ∈ mergeCalls (orderChanges H cs) (c0.applyEvents H esC).cc.getDeletes,
         CallNodes U c := by
       intro c hc
       simp only [mergeCalls, List.mem_append, List.mem_map] at hc
@@ -118,7 +118,7 @@ theorem trieRun_discipline (H : Bytes → Bytes) (U : Ref → Prop) (hU : KeyInj
       · simp only [getDeletes] at hd'
         obtain ⟨e, he, rfl⟩ := List.mem_map.mp hd'
         exact hEC _ (prov.deletes e he).2
-    have hEM : ∀ r ∈ eventRefs (mergeEvents (orderChanges H (c0.applyEvents H esC).cc.getChanges)
+    have hEM : ∀ r ∈ eventRefs (mergeEvents (orderChanges H cs)
         (c0.applyEvents H esC).cc.getDeletes), U r := by
       intro r hr'
       simp only [mergeEvents] at hr'
@@ -163,7 +163,7 @@ theorem trieRun_discipline (H : Bytes → Bytes) (U : Ref → Prop) (hU : KeyInj
         exact hEC _ (prov.deletes e he).2
     -- continue with the rest of the run
     obtain ⟨hd2, hc2, hw', hE2, hUt'⟩ := ih hw2 hUt2
-      (liveRun (Ref.key H) LK (mergeCalls (orderChanges H (c0.applyEvents H esC).cc.getChanges) (c0.applyEvents H esC).cc.getDeletes))
+      (liveRun (Ref.key H) LK (mergeCalls (orderChanges H cs) (c0.applyEvents H esC).cc.getDeletes))
       (fun r hr' => hmerge.2 _ (hcC r hr'))
       (by
         intro x hx
